@@ -237,6 +237,9 @@ func selfcertReplay(args []string) {
 
 		base := map[string]interface{}{"type": "create", "suffixData": sd, "delta": delta}
 		baseBytes := encodeStyled(generic(base), "none")
+		if c.Mod != "none" {
+			baseBytes = spellDigits(baseBytes) // (the changed request is compared with a base in this spelling ...)
+		}
 
 		// the changed request
 		msd := map[string]interface{}{}
@@ -343,6 +346,9 @@ func selfcertReplay(args []string) {
 
 		envelope["type"], envelope["suffixData"], envelope["delta"] = "create", msd, mdelta
 		modBytes := encodeStyled(generic(envelope), style)
+		if c.Mod == "none" || c.Mod == "whitespace" {
+			modBytes = spellDigits(modBytes) // (... and the unchanged one, spelled digit by digit, with the base as encoded)
+		}
 
 		p := testProtocol(1)
 		p.Patches = append(p.Patches, "remove-also-known-as")
